@@ -27,7 +27,7 @@ fn spec(tier: Tier) -> CheckSpec {
 		level: "exploration",
 		rule: format!(
 			"exhaustive: (crash) every token sequence, character string, number-like and text-block-like string of the C06 sequence spaces (same bounds) given to the jrsonnet-fmt pipeline (format, trim, final newline) with {}: no panic, no hang (10 s per case watchdog), a diagnostic (declined) whenever the evaluator's parser rejects the text, and a fixed point whenever it formats; \
-			(fixpoint) every program of the whole-grammar generator with <= {} non-literal constructs x indentation {{tabs, 2, 4}}, and every program with <= {} constructs additionally with every single insertion of {{newline, blank line, block comment, line comment on its own line, trailing line comment, hash comment}} at every token boundary, and with one token per line, plus the repository's parser/formatter test inputs: format(format(x)) = format(x), i.e. `jrsonnet-fmt --test` accepts what `jrsonnet-fmt` printed. (cli) the real dev-profile jrsonnet-fmt executable on every text block of <= 2 lines over {{a, empty, tab+b, spaces+c, spaces only}} x block indentation {{space, tab}} x {{|||, |||-}}, multi-line string literals, every generated program with <= {} constructs and the repository inputs, x {{--indent 2, --indent 4, --hard-tabs}}: no panic (exit 101), stdout equal to the pipeline function used by the other parts, and `jrsonnet-fmt --test` exits 0 on that output. non-trivial = distinct (text, indentation) that the formatter formats",
+			(fixpoint) every program of the whole-grammar generator with <= {} non-literal constructs x indentation {{tabs, 2, 4}}, and every program with <= {} constructs additionally with every single insertion of {{newline, blank line, block comment, line comment on its own line, trailing line comment, hash comment, empty / blank / doc / multi-line block comment}} at every token boundary, and with one token per line, plus the repository's parser/formatter test inputs: format(format(x)) = format(x), i.e. `jrsonnet-fmt --test` accepts what `jrsonnet-fmt` printed. (cli) the real dev-profile jrsonnet-fmt executable on every text block of <= 2 lines over {{a, empty, tab+b, spaces+c, spaces only}} x block indentation {{space, tab}} x {{|||, |||-}}, multi-line string literals, every generated program with <= {} constructs and the repository inputs, x {{--indent 2, --indent 4, --hard-tabs}}: no panic (exit 101), stdout equal to the pipeline function used by the other parts, and `jrsonnet-fmt --test` exits 0 on that output. non-trivial = distinct (text, indentation) that the formatter formats",
 			tier.q("indentation 2", "every indentation setting"),
 			tier.q(3, 4),
 			tier.q(2, 3),
